@@ -1,4 +1,6 @@
 #!/bin/sh
+# runs on changed trees must not overwrite the committed evidence of the unchanged tree
+export VERIF_EVIDENCE=/verif/build/evidence-changed-tree
 # tools/seed_matrix.sh [ids...] : for every seeded change apply it to /repo, run the check of its own property, undo; summary -> build/seed_matrix.tsv
 cd /verif
 ids="$@"; [ -z "$ids" ] && ids=$(cd seeded && ls -d */ | tr -d /)
